@@ -107,7 +107,7 @@ class Case:
 
     def _of(self, f, e, at=None, depth=0):
         ctx = self.ctx
-        if e is None or depth > 14:
+        if e is None or depth > 32:
             return UNKNOWN
         if isinstance(e, ast.Constant):
             return const_case(e.value) if isinstance(e.value, str) else NEUTRAL
@@ -144,6 +144,8 @@ class Case:
                 if fn.attr == "replace" and len(e.args) >= 2:
                     return join(self.of(f, fn.value, at, depth + 1), self.of(f, e.args[1], at, depth + 1))
                 if fn.attr in ("split", "rsplit", "splitlines", "partition"):
+                    if fn.attr == "split" and e.args and (ctx.p.fregex_ref(f.rel, fn.value) or ctx.r.expr_builtin(f, fn.value) == "pattern"):
+                        return self.of(f, e.args[0], at, depth + 1)  # <pattern>.split(text)
                     return self.of(f, fn.value, at, depth + 1)
                 if fn.attr == "join" and e.args:
                     return join(self.of(f, fn.value, at, depth + 1), self.of(f, e.args[0], at, depth + 1))
@@ -314,7 +316,7 @@ class Case:
             if frame[0] == f.qual and name in frame[1]:
                 return frame[1][name]
         key = ("param", f.qual, name)
-        if key in self._visiting or depth > 14:
+        if key in self._visiting or depth > 32:
             return None
         callers = [(g, c, k) for g, c, k in ctx.r.callers(f.qual, by_name=False) if not g.rel.endswith("debug.py")]
         if not callers:
@@ -464,7 +466,7 @@ class Case:
         """case of the keys/elements of a container expression; which='iter'
         means what iteration yields (keys of a dict, elements otherwise)"""
         ctx = self.ctx
-        if depth > 14:
+        if depth > 32:
             return UNKNOWN
         if which == "iter":
             which = "key" if self.is_dict(f, e) else "value"
@@ -548,6 +550,8 @@ class Case:
                         self._visiting.discard(t)
                 return r if r is not None else UNKNOWN
             if isinstance(e.func, ast.Attribute) and e.func.attr in ("split", "rsplit", "findall", "splitlines"):
+                if e.func.attr == "split" and e.args and (ctx.p.fregex_ref(f.rel, e.func.value) or ctx.r.expr_builtin(f, e.func.value) == "pattern"):
+                    return self.of(f, e.args[0], at, depth + 1)
                 return self.of(f, e.func.value, at, depth + 1) if e.func.attr != "findall" else RAW
             return UNKNOWN
         if isinstance(e, ast.Subscript):
@@ -582,7 +586,7 @@ class Case:
     def param_container(self, f, name, which, depth):
         ctx = self.ctx
         key = ("pcont", f.qual, name, which)
-        if key in self._visiting or depth > 14:
+        if key in self._visiting or depth > 32:
             return None
         callers = [(g, c, k) for g, c, k in ctx.r.callers(f.qual, by_name=False) if not g.rel.endswith("debug.py")]
         if not callers:
